@@ -31,7 +31,9 @@ class Register(Operand):
         assert isinstance(self.index, int)
 
     def __str__(self):
-        return f"{self.name.name}{self.index}"
+        # (a boolean index is the integer 0 or 1, not "True" / "False")
+        index = int(self.index) if isinstance(self.index, bool) else self.index
+        return f"{self.name.name}{index}"
 
     @property
     def cstruct(self):
@@ -60,7 +62,8 @@ class Address(Operand):
         assert isinstance(self.address, int)
 
     def __str__(self):
-        return f"{Symbols.ADDRESS_START}{self.address}"
+        address = int(self.address) if isinstance(self.address, bool) else self.address
+        return f"{Symbols.ADDRESS_START}{address}"
 
     @property
     def cstruct(self):
